@@ -185,9 +185,31 @@ def d2_bootstrap(ctx, obs):
     sm = [s for s in statements(im) if isinstance(s, ast.Assign) and unparse(s.targets[0]) == 'samples' and isinstance(s.value, ast.Subscript)]
     oki = len(sm) == 1 and unparse(sm[0].value) == 'scipy.linalg.lstsq(proj, %s[1:])[0]' % im.args.args[0].arg
     ctx.check(rule, 'obs.py:import_bootstrap#solve', oki, 'data = least-squares solution of proj @ data = samples', 'samples = %s' % [unparse(s.value) for s in sm])
-    g = [unparse(guards_of(obs, s, stop=im)[0][0]) for s in statements(im) if isinstance(s, ast.Raise) and guards_of(obs, s, stop=im)]
-    ctx.check(rule, 'obs.py:import_bootstrap#guards', any('!= len(%s) - 1' % im.args.args[0].arg in x for x in g) and any('samples < length' in x for x in g),
-              'shape mismatch and samples < length are rejected', 'guards: %s' % g)
+    gnodes = [guards_of(obs, s, stop=im)[0][0] for s in statements(im) if isinstance(s, ast.Raise) and guards_of(obs, s, stop=im)]
+    g = [unparse(x) for x in gnodes]
+    # decided on values: with (samples, length) = shape of the random numbers and nb = len(boots), some guard must fire exactly when
+    # samples != nb - 1 or samples < length
+    bp = im.args.args[0].arg
+
+    class _B:
+        def __init__(self, n):
+            self.n = n
+
+        def __len__(self):
+            return self.n
+    wrong = []
+    try:
+        for smp in range(0, 5):
+            for ln in range(0, 5):
+                for nb in range(0, 6):
+                    fired = any(bool(eval(compile(ast.Expression(body=t_), '<guard>', 'eval'), {'__builtins__': {'len': len}}, {'samples': smp, 'length': ln, bp: _B(nb)})) for t_ in gnodes)
+                    if fired != (smp != nb - 1 or smp < ln):
+                        wrong.append((smp, ln, nb))
+        okg = not wrong
+        detail = 'guards %s decide wrongly for (samples, length, len(boots)) = %s' % (g, wrong[:4])
+    except Exception as e_:
+        raise Unrecognised('cannot evaluate the guards %s: %s' % (g, e_))
+    ctx.check(rule, 'obs.py:import_bootstrap#guards', okg, 'shape mismatch and samples < length are rejected (evaluated on 150 size triples)', detail)
     v0 = [s for s in statements(im) if isinstance(s, ast.Assign) and isinstance(s.targets[0], ast.Attribute) and s.targets[0].attr == '_value']
     ctx.check(rule, 'obs.py:import_bootstrap#entry0', len(v0) == 1 and unparse(v0[0].value) == '%s[0]' % im.args.args[0].arg, 'central value = entry 0', 'value = %s' % [unparse(s.value) for s in v0])
 
